@@ -435,7 +435,7 @@ func (g *gen) stmtsIn(n int, fc *fctx) []Stmt {
 	return out
 }
 
-var stmtKinds = []string{"decl", "assign", "emit", "if", "loop", "do", "func", "call", "pcall", "xpcall", "error", "rtfault", "co", "meta", "sort", "gsub", "fenv", "host", "clobber", "goto"}
+var stmtKinds = []string{"decl", "assign", "emit", "if", "loop", "do", "func", "call", "pcall", "xpcall", "error", "rtfault", "co", "meta", "sort", "gsub", "fenv", "host", "clobber", "goto", "break"}
 
 func (g *gen) stmt(fc *fctx) []Stmt {
 	g.stmts++
@@ -505,6 +505,12 @@ func (g *gen) stmt(fc *fctx) []Stmt {
 			if !g.feat("goto") {
 				w = 0
 			}
+		case "break":
+			// a break anywhere inside nested blocks of a loop body
+			w = 0
+			if fc.inLoop && g.feat("loop") {
+				w = 2
+			}
 		}
 		ws[i] = w
 	}
@@ -563,6 +569,11 @@ func (g *gen) stmt(fc *fctx) []Stmt {
 		return g.sClobber(fc)
 	case "goto":
 		return g.sGoto(fc)
+	case "break":
+		g.use("break_nested")
+		// always conditional: an unconditional break followed by (dead) statements runs into a jump-threading
+		// defect of the compiler that is outside the claimed properties (the loop exit jumps to a wrong place)
+		return []Stmt{&If{Conds: []Expr{g.boolNC(1)}, Blocks: [][]Stmt{{&Break{}}}}}
 	}
 	return g.sEmit(fc)
 }
